@@ -84,6 +84,15 @@ fn main() {
                 run_grammar(&g, &inputs, &mut w, id);
             }
         }
+        // the skip-until idiom (optimizer: skipper; runtime: skip_until with memchr fast paths)
+        "skip" => {
+            let count = arg_u64(2, 200); let mut rng = Rng::new(arg_u64(3, 0)); let maxlen = arg_u64(4, 5) as usize;
+            let inputs = all_strings(&["x", "y"], maxlen);
+            for id in 0..count {
+                let g = gen_skip_grammar(&mut rng);
+                run_grammar(&g, &inputs, &mut w, id);
+            }
+        }
         // one GRAMMAR_TEXT INPUT...: a hand-written grammar in pest syntax (the AST is taken from the real reader)
         "one" => {
             let text = arg(2);
@@ -93,7 +102,7 @@ fn main() {
             let inputs: Vec<String> = std::env::args().skip(3).collect();
             run_grammar(&g, &inputs, &mut w, 0);
         }
-        _ => { eprintln!("usage: c01 random COUNT SEED [MAXLEN] [nostack] | stack COUNT SEED [MAXLEN] | one GRAMMAR INPUT.."); std::process::exit(2); }
+        _ => { eprintln!("usage: c01 random COUNT SEED [MAXLEN] [nostack] | stack COUNT SEED [MAXLEN] | skip COUNT SEED [MAXLEN] | one GRAMMAR INPUT.."); std::process::exit(2); }
     }
     writeln!(w, "#SUMMARY\tevaluations={}\tdistinct_nontrivial={}\tgrammars={}\trejected={}\tok={}\tpanics={}\tlimits={}", n, nontriv, grammars, rejected, oks, panics, limits).unwrap();
 }
